@@ -6,6 +6,8 @@ Decided (E3 on tensor.symmetrize / tensor.issymmetric and the Kruskal versions):
          reshape of a listing back to N-D) uses the same listing order on both sides, in both algorithm versions
   EO-1   reshape-family calls in these functions pass an order that evaluates to F (or are reviewed order-irrelevant)
   EXACT  symmetry is decided by exact comparisons (no allclose / isclose in these functions)
+  ALLGRP in the symmetry tests the verdict of every group / pair of modes reaches the answer: no loop overwrites a
+         plain verdict variable on every iteration and reads it only after the loop ("the last group decides")
   GRP    the group guards exist: modes of a group have equal sizes, groups do not overlap (guard atoms, E5)
 Not decided: averaging numerics, idempotence, agreement of the two versions, the Kruskal average itself.
 """
@@ -25,7 +27,7 @@ def check(prog: Program, res: Result, tier: str) -> None:
     res.explanation = __doc__.split("\n\n", 1)[1]
     res.assumptions = ["numpy default order of ravel/flatten/reshape is C; tt_ind2sub/tt_sub2ind default to F (checked by C17)",
                        "class `order` properties evaluate to F (EO-cls under C01)"]
-    res.floors = {"EO-2": 5, "EO-1": 7, "GRP": 3, "EXACT": 4}
+    res.floors = {"EO-2": 5, "EO-1": 7, "GRP": 3, "EXACT": 4, "ALLGRP": 4}
     for f in FUNCS:
         prog.func(f)
     sel = lambda fi: fi.short in FUNCS
@@ -61,3 +63,93 @@ def check(prog: Program, res: Result, tier: str) -> None:
     has = any(isinstance(n, ast.Return) and isinstance(n.value, ast.Constant) and n.value.value is False for n in ast.walk(fi.node))
     if has:
         res.ok("GRP", fi.short, "answers False for groups of unequal mode sizes", prog.loc(fi), nontrivial=False)
+
+    # every iteration's verdict reaches the answer
+    for short in ("tensor.tensor.issymmetric", "ktensor.ktensor.issymmetric"):
+        fi = prog.func(short)
+        for loop, bad in last_iteration_wins(fi.node):
+            desc = f"every iteration of the loop over `{ast.unparse(loop.iter)[:50]}` contributes to the answer"
+            if bad:
+                name, use = bad
+                res.bad("ALLGRP", short, desc, prog.loc(fi, loop),
+                        f"`{name}` is overwritten on every iteration (its new value does not depend on the previous one, and no exit inside "
+                        f"the loop tests it) and is read only after the loop (`{ast.unparse(use)[:70]}`): only the last iteration decides")
+            else:
+                res.ok("ALLGRP", short, desc, prog.loc(fi, loop))
+
+
+def _names_read(node) -> set:
+    return {n.id for n in ast.walk(node) if isinstance(n, ast.Name) and isinstance(n.ctx, ast.Load)}
+
+
+def last_iteration_wins(fn: ast.AST):
+    """For every for-loop of fn: (loop, None) or (loop, (name, first statement after the loop that reads it))."""
+    out = []
+
+    def blocks(node):
+        for f in ("body", "orelse", "finalbody"):
+            b = getattr(node, f, None)
+            if isinstance(b, list) and b and isinstance(b[0], ast.stmt):
+                yield b
+        for h in getattr(node, "handlers", []) or []:
+            yield h.body
+
+    def visit(body, following):
+        # `following`: statements executed after this block ends (innermost first), up to the end of the function
+        for i, st in enumerate(body):
+            after = body[i + 1:] + following
+            if isinstance(st, (ast.FunctionDef, ast.AsyncFunctionDef, ast.ClassDef)):
+                continue
+            if isinstance(st, ast.For):
+                out.append((st, verdict(st, after)))
+                visit(st.body, [])      # inner loops are judged against their own continuation only when it is the loop body's end
+                visit(st.orelse, after)
+                continue
+            for b in blocks(st):
+                visit(b, after)
+
+    def verdict(loop: ast.For, after):
+        loopvars = {n.id for n in ast.walk(loop.target) if isinstance(n, ast.Name)}
+        cands = {}
+        for n in ast.walk(loop):
+            if isinstance(n, ast.Assign) and len(n.targets) == 1 and isinstance(n.targets[0], ast.Name):
+                nm = n.targets[0].id
+                if nm in loopvars:
+                    continue
+                cands.setdefault(nm, []).append(n)
+            elif isinstance(n, ast.AugAssign) and isinstance(n.target, ast.Name):
+                cands.setdefault(n.target.id, []).append(None)   # accumulation
+        for nm, defs in cands.items():
+            if any(d is None or nm in _names_read(d.value) for d in defs):
+                continue            # accumulates
+            # tested by an exit inside the loop?
+            tested = False
+            for n in ast.walk(loop):
+                if isinstance(n, (ast.If, ast.While)) and nm in _names_read(n.test):
+                    if any(isinstance(x, (ast.Return, ast.Break, ast.Raise)) for b in (n.body, n.orelse) for s_ in b for x in ast.walk(s_)):
+                        tested = True
+            if tested:
+                continue
+            # read inside the loop in a way that carries it (store into a container / accumulation)?
+            carried = False
+            for n in ast.walk(loop):
+                if isinstance(n, (ast.Assign, ast.AugAssign)):
+                    tgt = n.targets[0] if isinstance(n, ast.Assign) else n.target
+                    if not (isinstance(tgt, ast.Name) and tgt.id == nm) and nm in _names_read(n.value):
+                        carried = True
+                elif isinstance(n, ast.Call) and isinstance(n.func, ast.Attribute) and n.func.attr in ("append", "extend", "add", "update") \
+                        and any(nm in _names_read(a) for a in n.args):
+                    carried = True
+            if carried:
+                continue
+            # first read after the loop before a re-definition
+            for st in after:
+                if isinstance(st, ast.Assign) and len(st.targets) == 1 and isinstance(st.targets[0], ast.Name) and st.targets[0].id == nm \
+                        and nm not in _names_read(st.value):
+                    break
+                if nm in _names_read(st):
+                    return (nm, st)
+        return None
+
+    visit(fn.body, [])
+    return out
